@@ -110,6 +110,10 @@ ENVS_QUICK = [
 ]
 
 
+# workers that run, before each case, the same pipeline with every real-valued parameter moved by 5 % on another machine
+NEIGHBOUR_FIRST = ("threads2",)
+
+
 def gen_cases(rng, tier, big=False):
     cases = []
     per_pipeline = 3 if tier == "quick" else 30
@@ -170,7 +174,8 @@ def run_workers(envs, cases, max_parallel, timeout, full=False, frames=None):
         while pending and len(running) < max_parallel:
             name, threads, parallel, scen, sweep = pending.pop(0)
             mine = cases if (scen or full) else [c for c in cases if c.get("all_envs", True)]
-            spec = {"cases": mine, "scenarios": scen, "set_threads": sweep, "full": full, "frames": frames}
+            spec = {"cases": mine, "scenarios": scen, "set_threads": sweep, "full": full, "frames": frames,
+                    "neighbour_first": name in NEIGHBOUR_FIRST}
             running.append((name, launch(name, threads, parallel, spec), time.time()))
         for item in list(running):
             name, p, ts = item
@@ -313,7 +318,12 @@ def analyse(ctx, cases, outs, envs):
                                          "(not the disparity map / flags: outside the statement)")
                 else:
                     diff = first_diff(a, b)
-                    if diff:
+                    if diff and name in NEIGHBOUR_FIRST:
+                        ctx.violation("run_after_other_machines_differs",
+                                      f"{cid}: in process {name} another machine first ran the same pipeline with every real "
+                                      f"parameter moved by 5 %; the products of the case then differ from {ref_env} (which ran "
+                                      f"the case first) at {diff} (or the thread count {r.get('threads_now')} matters)", replay)
+                    elif diff:
                         ctx.violation("thread_count_differs",
                                       f"{cid}: products with {name} (threads now {r.get('threads_now')}) differ from "
                                       f"{ref_env} at {diff}", replay)
